@@ -1080,13 +1080,24 @@ where
                 _ => (),
             }
 
-            // Check on plugin results.
-            if let Some(PluginOutput::Deny(error)) = plugin_output {
-                self.forget_statements(&mut denied_statements);
-                self.reset_buffered_state();
-                error_response(&mut self.write, &error).await?;
-                plugin_output = None;
-                continue;
+            // Check on plugin results: neither verdict needs a server connection.
+            match plugin_output {
+                Some(PluginOutput::Deny(error)) => {
+                    self.forget_statements(&mut denied_statements);
+                    self.reset_buffered_state();
+                    error_response(&mut self.write, &error).await?;
+                    plugin_output = None;
+                    continue;
+                }
+
+                Some(PluginOutput::Intercept(result)) => {
+                    self.reset_buffered_state();
+                    write_all(&mut self.write, result).await?;
+                    plugin_output = None;
+                    continue;
+                }
+
+                _ => (),
             };
 
             // Check if the pool is paused and wait until it's resumed.
